@@ -39,6 +39,7 @@ type HarnessSpec struct {
 	Solver   string   `json:"solver"`  // primary back end for this harness (default: the spec's)
 	ConcretizeBits bool `json:"concretize_bits"` // fork over the values of bits.LeadingZeros64/TrailingZeros64 results
 	MaxConcretize  int  `json:"max_concretize"`
+	KeepPkgs       []string `json:"keep_pkgs"` // packages of the default no-op list that this harness executes for real
 	Note     string   `json:"note"`
 }
 
@@ -842,6 +843,21 @@ func runCheck(specPath, tier, only string, workers int, noNative, trace bool) in
 		hcfg.MapOrderAny = h.MapOrderAny
 		hcfg.FifoChans = h.FifoChans
 		hcfg.ConcretizeBits = h.ConcretizeBits
+		if len(h.KeepPkgs) > 0 {
+			var np []string
+			for _, x := range cfg.noopPkgs {
+				keep := false
+				for _, k := range h.KeepPkgs {
+					if k == x {
+						keep = true
+					}
+				}
+				if !keep {
+					np = append(np, x)
+				}
+			}
+			hcfg.noopPkgs = np
+		}
 		if h.MaxConcretize > 0 {
 			hcfg.Limits.MaxConcretize = h.MaxConcretize
 		}
@@ -959,6 +975,21 @@ func runCheck(specPath, tier, only string, workers int, noNative, trace bool) in
 		hcfg.MapOrderAny = false
 		hcfg.FifoChans = h.FifoChans
 		hcfg.ConcretizeBits = h.ConcretizeBits
+		if len(h.KeepPkgs) > 0 {
+			var np []string
+			for _, x := range cfg.noopPkgs {
+				keep := false
+				for _, k := range h.KeepPkgs {
+					if k == x {
+						keep = true
+					}
+				}
+				if !keep {
+					np = append(np, x)
+				}
+			}
+			hcfg.noopPkgs = np
+		}
 		if h.MaxConcretize > 0 {
 			hcfg.Limits.MaxConcretize = h.MaxConcretize
 		}
